@@ -145,12 +145,14 @@ def main():
     bad, kinds = [], {}
     for i in range(count):
         if only is not None and i != only: continue
-        for how in ('PythonTask', 'pythontask'):
+        for how in ('PythonTask', 'PythonTask_list', 'pythontask'):
             name, f, a, k = gen_case(random.Random('%s-app-%d' % (seed, i)))
             kinds[name] = kinds.get(name, 0) + 1
             want = call(f, a, k)
             try:
-                s = rp.PythonTask(f, a, k) if how == 'PythonTask' else rp.PythonTask.pythontask(f)(*a, **k)
+                # (the positional arguments as a tuple or as a list - TaskDescription.args is a list)
+                s = rp.PythonTask(f, a, k) if how == 'PythonTask' else rp.PythonTask(f, list(a), k) if how == 'PythonTask_list' \
+                    else rp.PythonTask.pythontask(f)(*a, **k)
                 g, a2, k2 = rp.PythonTask.get_func_attr(s)
                 got = call(g, a2, k2)
             except Exception as e:
